@@ -30,6 +30,14 @@ Definition chk_gq_values (s : src) (o : option (list (list Z))) : bool :=
   | _, _ => false
   end.
 
+(** on ASCII text the proposed repair of the GraphQL lexer changes nothing *)
+Definition chk_repair_agrees (s : src) : bool :=
+  negb (forallb (fun c => width (cp c) =? 1) s) ||
+  match lex_graphql s, lex_graphql_repaired s with
+  | Done ts, Done ts' => list_eqb tok_eqb ts ts'
+  | _, _ => false
+  end.
+
 (** the whitespace table of the model against Rust's [char::is_whitespace] (flag bit 2) *)
 Definition chk_ws (s : src) : bool := forallb (fun c => Bool.eqb (is_ws (cp c)) (Z.testbit (fl c) 2)) s.
 
